@@ -694,7 +694,8 @@ def cpp_print(mod, ty, e, out, uid):
     elif k == "obox":
         out.append(f'printf("#%lld", (long long)({e})->id());')
     elif k == "orefret":
-        out.append(f'printf("#%lld", (long long)({e}).id());')
+        # `const Op&` directly, std::reference_wrapper<const Op> inside diplomat::result / std::optional
+        out.append(f'printf("#%lld", (long long)(static_cast<const Op&>({e})).id());')
     elif k in ("oboxopt", "orefopt"):
         n = uid(); out.append(f'{{ const Op* {n} = {e}{".get()" if k == "oboxopt" else ""}; if ({n}) printf("S(#%lld)", (long long){n}->id()); else printf("N"); }}')
     elif k == "opt":
